@@ -30,11 +30,32 @@ func runC06(w *World) {
 	dir := Dir(w.Draw(2, "dir"))
 	stage := w.Draw(4, "stage") // 0: stay in OpenConfirm; else Established
 	var writer corebgp.UpdateMessageWriter
+	// busyFor > 0 makes the next UPDATE's handler take that long (virtual time):
+	// the hold timer then fires while the FSM is not looking; busyCease makes it
+	// end the session with a Cease afterwards (no damping)
+	var busyFor time.Duration
+	busyCease := false
+	var busyFrom, busyTo []time.Duration // intervals during which a plugin callback kept the FSM goroutine
 	s := NewStd1(w, Std1Opts{Dir: dir, Passive: dir == DirIn && w.Draw(2, "passive") == 1, LocalHold: lh, RemoteHold: uint16(rh), IdleHold: 6 * time.Hour,
 		Configure: func(p *PeerH) {
 			p.Plug.EstFn = func(pl *Plug, ss *Session) { writer = ss.Writer }
 			// a plugin may return a nil handler: received UPDATEs still count as traffic
 			p.Plug.NilHandler = w.Chance(1, 4, "nilhandler")
+			p.Plug.UpdFn = func(pl *Plug, ss *Session, idx int, b []byte) *corebgp.Notification {
+				if busyFor > 0 {
+					d := busyFor
+					busyFor = 0
+					w.Fault("busy-handler")
+					busyFrom = append(busyFrom, w.Now())
+					w.Sleep(d)
+					busyTo = append(busyTo, w.Now())
+					if busyCease {
+						busyCease = false
+						return &corebgp.Notification{Code: 6, Subcode: 0}
+					}
+				}
+				return nil
+			}
 		}})
 	if s == nil {
 		return
@@ -65,6 +86,16 @@ func runC06(w *World) {
 		if w.Chance(1, 2, "priorwrite") && writer != nil {
 			writer.WriteUpdate([]byte{9, 9, 9, 9})
 		}
+		ph := min(lh, prior)
+		if ph > 0 && ph <= 30 && !p.Plug.NilHandler && w.Chance(1, 2, "prior-busy") {
+			// the prior session's handler is busy for longer than its hold time and
+			// then ends the session itself: its hold timer fired unobserved
+			busyFor = time.Duration(ph)*time.Second + time.Duration(w.Range(200, 3000, "priorbusyms"))*time.Millisecond
+			busyCease = true
+			pc.Deliver(MkFrame(MsgUpdate, []byte{8, 8, 8, 8}))
+			w.WaitUntil("c06.priorbusy", time.Duration(ph)*time.Second+10*time.Second, pc.LocalClosed)
+			w.Probe("prior-session-ended-by-busy-handler")
+		}
 		pc.FIN()
 		w.Quiesce()
 		w.Probe("prior-session")
@@ -93,6 +124,10 @@ func runC06(w *World) {
 	}
 	deliver(p.Speaker.OpenFrame())
 	f := c.WaitFrame(time.Minute)
+	if f != nil && f.IsNotif(4, -1) && f.At-c.OpenSentAt < 3*time.Second {
+		w.Violate("C06/expiry/early-OpenSent", "Hold Timer Expired sent %v after corebgp's own OPEN, before any hold time could have elapsed (local %d s, remote %d s, prior session remote hold %d)", f.At-c.OpenSentAt, lh, rh, prior)
+		return
+	}
 	if f == nil || f.Type != MsgKeepalive {
 		w.Probe("setup-failed")
 		s.E.FinishRun()
@@ -143,8 +178,25 @@ func runC06(w *World) {
 		}
 		if hs > 0 {
 			// remote traffic plan
-			pk := w.Draw(7, "pattern")
-			pattern = []string{"silent", "ka@H/3", "ka@H-eps", "ka@H+eps", "random", "updates@H/3", "last-just-before-expiry"}[pk]
+			pk := w.Draw(8, "pattern")
+			if pk == 7 && (hs > 30 || p.Plug.NilHandler) {
+				pk = 1
+			}
+			pattern = []string{"silent", "ka@H/3", "ka@H-eps", "ka@H+eps", "random", "updates@H/3", "last-just-before-expiry", "busy-handler"}[pk]
+			if pk == 7 {
+				// an UPDATE whose handler takes longer than the hold time while the
+				// remote keeps sending KEEPALIVEs on time: the remote is never silent,
+				// so the session must survive the handler
+				busyFor = H + time.Duration(w.Range(200, 2*hs*1000, "busyms"))*time.Millisecond
+				end := w.Now() + busyFor + H
+				deliver(MkFrame(MsgUpdate, []byte{7, 7, 7, 7}))
+				for w.Now() < end && !c.LocalClosed() {
+					w.Sleep(H / 3)
+					deliver(KeepaliveFrame())
+					nremote++
+				}
+				pk = 0
+			}
 			n := w.Range(1, 8, "nmsgs")
 			eps := Pick(w, "eps", 5*time.Millisecond, 100*time.Millisecond, time.Second)
 			for i := 0; i < n && pk != 0; i++ {
@@ -293,7 +345,13 @@ func runC06(w *World) {
 		if f.Type != MsgKeepalive && f.Type != MsgUpdate {
 			continue
 		}
-		if prev >= 0 && f.At-prev > limit {
+		inCallback := false
+		for i := range busyTo {
+			if prev <= busyTo[i] && f.At >= busyFrom[i] {
+				inCallback = true // corebgp cannot send while the plugin holds its FSM goroutine
+			}
+		}
+		if prev >= 0 && f.At-prev > limit && !inCallback {
 			w.Violate("C06/keepalive-cadence/gap-"+stName, "%v passed between two KEEPALIVE/UPDATE messages sent by corebgp (at %v and %v); hold time %v allows %v", f.At-prev, prev, f.At, H, limit)
 			return
 		}
